@@ -183,22 +183,26 @@ static void op_e2m(int argc, char **argv) {
 /* e2s <variant> <P> <k> <Q> <m> */
 static void op_e2s(int argc, char **argv) {
 	if (argc < 6) { fprintf(OUT, "bad-args\n"); return; }
-	const char *v = argv[1];
+	/* suffix .p / .q of the variant: the result object is the first / second point operand */
+	char v[32]; int al = 0;
+	snprintf(v, sizeof(v), "%s", argv[1]);
+	{ char *dot = strchr(v, '.'); if (dot) { al = dot[1] == 'p' ? 1 : (dot[1] == 'q' ? 2 : 0); *dot = 0; } }
 	int caught = 0;
 	ep2_t p, q, c; bn_t k, m; raw_t r;
 	ep2_null(p); ep2_null(q); ep2_null(c); ep2_new(p); ep2_new(q); ep2_new(c); bn_null(k); bn_new(k); bn_null(m); bn_new(m);
 	ep2_tok(p, argv[2]); raw_parse(&r, argv[3]); raw_to_bn(k, &r);
 	ep2_tok(q, argv[4]); raw_parse(&r, argv[5]); raw_to_bn(m, &r);
+	ep2_st *cc = al == 1 ? p : (al == 2 ? q : c);
 	RLC_TRY {
-		if (!strcmp(v, "sim")) ep2_mul_sim(c, p, k, q, m);
-		else if (!strcmp(v, "basic")) ep2_mul_sim_basic(c, p, k, q, m);
-		else if (!strcmp(v, "trick")) ep2_mul_sim_trick(c, p, k, q, m);
-		else if (!strcmp(v, "inter")) ep2_mul_sim_inter(c, p, k, q, m);
-		else if (!strcmp(v, "joint")) ep2_mul_sim_joint(c, p, k, q, m);
-		else if (!strcmp(v, "gen")) ep2_mul_sim_gen(c, k, q, m);
+		if (!strcmp(v, "sim")) ep2_mul_sim(cc, p, k, q, m);
+		else if (!strcmp(v, "basic")) ep2_mul_sim_basic(cc, p, k, q, m);
+		else if (!strcmp(v, "trick")) ep2_mul_sim_trick(cc, p, k, q, m);
+		else if (!strcmp(v, "inter")) ep2_mul_sim_inter(cc, p, k, q, m);
+		else if (!strcmp(v, "joint")) ep2_mul_sim_joint(cc, p, k, q, m);
+		else if (!strcmp(v, "gen")) ep2_mul_sim_gen(cc, k, q, m);
 		else { fprintf(OUT, "unknown-e2s %s\n", v); return; }
 	} RLC_CATCH_ANY { caught = 1; }
-	if (take_err() || caught) fprintf(OUT, "err"); else ep2_out(c);
+	if (take_err() || caught) fprintf(OUT, "err"); else ep2_out(cc);
 	fputc('\n', OUT);
 }
 
